@@ -189,15 +189,21 @@ class FP11RMOperandStub(RegisterModeOperandStub):
 
         register = try_as_register(operand, state)
         if register is not None:
-            (reports.warning if register < 6 else reports.error)(
-                "implicit-accumulator",
-                (
-                    operand.ctx_start, operand.ctx_end,
-                    f"This FP11 instruction takes either an accumulator, or any CPU addressing mode except simple register for this operand.\n{operand!r} will be implicitly treated as ac{register} in this context -- please use the latter mnemonic for clarity."
-                    + ("" if register < 6 else "\nMoreover, accumulator ac{register} does not exist, because only accumulators ac0 to ac5 exist.")
+            def check(register):
+                (reports.warning if register < 6 else reports.error)(
+                    "implicit-accumulator",
+                    (
+                        operand.ctx_start, operand.ctx_end,
+                        f"This FP11 instruction takes either an accumulator, or any CPU addressing mode except simple register for this operand.\n{operand!r} will be implicitly treated as ac{register} in this context -- please use the latter mnemonic for clarity."
+                        + ("" if register < 6 else "\nMoreover, accumulator ac{register} does not exist, because only accumulators ac0 to ac5 exist.")
+                    )
                 )
-            )
-            return register, b""
+                return register
+
+            if isinstance(register, int):
+                return check(register), b""
+            # '%x' with x not known yet: diagnose once the number is known
+            return Deferred[int](lambda: check(wait(register))), b""
 
         return super().encode(operand, state)
 
